@@ -5,5 +5,11 @@
 EXTENDS ConnServeGen, SequencesExt
 
 Vals == AllConn \cup {"upgrade,close"}
-ASSUME ndJsonSerialize("connopt.ndjson", SetToSeq({ [conn |-> c, close |-> ("close" \in TokensOf(c))] : c \in Vals }))
+\* response shapes: status x framing.  Responses that cannot carry a body (204, 304) are
+\* complete without any framing header; the close option counts for them exactly as for others.
+Shapes == { [status |-> 200, framing |-> "cl"], [status |-> 200, framing |-> "chunked"],
+            [status |-> 204, framing |-> "none"], [status |-> 304, framing |-> "none"],
+            [status |-> 204, framing |-> "cl0"] }
+ASSUME ndJsonSerialize("connopt.ndjson",
+         SetToSeq({ [conn |-> c, close |-> ("close" \in TokensOf(c)), status |-> sh.status, framing |-> sh.framing] : c \in Vals, sh \in Shapes }))
 =============================================================================
